@@ -446,3 +446,9 @@ func EnvInt(name string, def int) int {
 	}
 	return def
 }
+
+// Inconclusive reports that the current case could not be judged (resource problem, hang without a
+// witness).  The driver turns the line into exit status 2; it is never a violation.
+func Inconclusive(msg string) {
+	fmt.Printf("VERIF-INCONCLUSIVE %s\n", msg)
+}
